@@ -234,3 +234,51 @@ def completion_probes():
         "object-literal-expr": "({a: 1}).a;", "undefined": "undefined;", "null": "null;", "array": "[1, [2, 3]];",
     }
     return sorted(P.items())
+
+
+# ---------- closure-heavy programs (C15, C05) --------------------------------------------
+def closure_heavy(rng, levels=None):
+    """Many locals/params per function, captured and pass-through variables over 3-4 nesting levels,
+    named function expressions, arguments, arrows, names reused at different levels."""
+    n = [0]
+    names_pool = ["alpha", "beta", "gamma", "delta", "eps", "zeta", "eta", "theta", "iota", "kappa", "lam", "mu",
+                  "nu", "xi", "omi", "pi", "rho", "sig", "tau", "ups", "phi", "chi", "psi", "ome"]
+
+    def fn(level, visible, maxlevel):
+        n[0] += 1
+        k = rng.randint(0, 4)
+        params = rng.sample(names_pool, k)
+        nloc = rng.randint(3, 10)
+        locs = [x for x in rng.sample(names_pool, nloc) if x not in params]
+        mine = params + locs
+        body = []
+        for i, v in enumerate(locs):
+            src = rng.choice(visible + params + locs[:i] + ["1", "2", "3"]) if (visible or params or i) else str(i)
+            body.append("var %s = %s + %d;" % (v, src if src not in locs[i:] else str(i), i))
+        vis2 = list(dict.fromkeys(visible + mine))
+        if level < maxlevel:
+            kids = rng.randint(1, 3)
+            for j in range(kids):
+                kind = rng.random()
+                inner = fn(level + 1, vis2, maxlevel)
+                kn = "k%d_%d" % (n[0], j)
+                if kind < 0.4:
+                    body.append("var %s = function %s_me(%s) { %s };" % (kn, kn, inner[0], inner[1]))
+                elif kind < 0.7:
+                    body.append("function %s(%s) { %s }" % (kn, inner[0], inner[1]))
+                else:
+                    body.append("var %s = (%s) => { %s };" % (kn, inner[0], inner[1]))
+                args = ", ".join(rng.choice(vis2 + ["7"]) for _ in range(rng.randint(0, 3)))
+                body.append("log('%s', %s(%s));" % (kn, kn, args))
+        # mutate some captured variables, read others, use arguments
+        for v in rng.sample(vis2, min(len(vis2), rng.randint(1, 4))):
+            body.append("%s = %s + 1;" % (v, v))
+        reads = rng.sample(vis2, min(len(vis2), rng.randint(2, 6)))
+        ret = "return [" + ", ".join(reads) + (", arguments.length" if rng.random() < 0.5 else "") + "];"
+        return ", ".join(params), " ".join(body) + " " + ret
+
+    maxlevel = levels or rng.randint(2, 3)
+    p, b = fn(0, [], maxlevel)
+    nargs = len(p.split(",")) if p else 0
+    return ("function root(%s) { %s }\nlog('root', root(%s));\nlog('again', root());\n'done';"
+            % (p, b, ", ".join(str(i * 10) for i in range(nargs))))
